@@ -39,6 +39,8 @@ type resultJSON struct {
 	Cases              []caseRef      `json:"cases"`
 	Skipped            map[string]int `json:"skipped"`
 	UnitsChecked       int            `json:"units_checked"`
+	ParamsChecked      int            `json:"params_checked"`
+	ParamsUnchecked    int            `json:"params_unchecked"`
 	PTSChecked         int            `json:"pts_checked"`
 	AbsChecked         int            `json:"abs_checked"`
 	WallS              float64        `json:"wall_s"`
@@ -207,6 +209,7 @@ func main() {
 		rj.OracleFailures = append(rj.OracleFailures, best[s])
 	}
 	rj.Observations = st.observations
+	rj.ParamsChecked, rj.ParamsUnchecked = st.paramsChecked, st.paramsUnchecked
 	rj.UnitsChecked, rj.PTSChecked, rj.AbsChecked = st.unitsChecked, st.ptsChecked, st.absChecked
 	rj.Rule = "one evaluation = one muxer/client pair (real Muxer, writer paced in real time, real Client over an in-process transport). " +
 		"Non-trivial: a client reported tracks and at least one track received >= 10 callbacks; distinct by SHA-256 of (configuration, write history, target)."
